@@ -1,9 +1,11 @@
+mod codec;
 mod store;
 
 fn main() {
     let args: Vec<String> = std::env::args().collect();
     let code = match args.get(1).map(|s| s.as_str()) {
         Some("store") => store::main(&args[2..]),
+        Some("codec") => codec::main(&args[2..]),
         _ => {
             eprintln!("usage: vh store [--file] < ops");
             2
